@@ -808,12 +808,19 @@ let () = register "c07" (fun line ->
   let outs = ref [] in
   let gone = ref [] and next_node = ref (nn + L.length reps) in
   let downs = ref [] in
+  let cdown = ref false in
   let step o = let (s', r) = Heal.do_hop RedisSem.sem c04_slot hosts !st o in st := s'; r in
   L.iter (fun it ->
     let fs = L.filter (fun x -> x <> "") (S.split_on_char ' ' it) in
     let nat i = n_of_int (int_of_string (L.nth fs i)) in
     match fs with
     | [] -> ()
+    | ["cdown"] -> cdown := true
+    | ["cup"] -> cdown := false
+    | ("q" | "q!") :: _ when !cdown ->
+      (* CLUSTERDOWN is handed to the client; the proxy asks for the layout again *)
+      st := Heal.refresh hosts !st;
+      outs := "err" :: !outs
     | ("q" | "q!") :: body ->
       let v = parse_val (Array.of_list body) (ref 0) in
       (match Cluster.req_of_plan (plan_of v) with
